@@ -22,21 +22,26 @@ CHECKS = {
                        "from the relay factory with at most one authorization element altered; oracle = rejection with unchanged evidence and no backend call, "
                        "plus non-vacuity (unaltered relays served, signed by the node key, recorded exactly once)",
              design_ref="DESIGN.md §7 C35",
-             level_text="34 alteration kinds x generated worlds (1-3 peers, 2-4 blocks per session, context anywhere in sessions 2-4, lean / non-lean node mode, "
-                        "session sync allowance 0-1), about 9 000 relays per quick run; exploration only, no absence claim. Only single alterations are generated.",
+             level_text="38 alteration kinds x generated worlds (1-3 peers, 2-4 blocks per session, context anywhere in sessions 2-4, lean / non-lean node mode, "
+                        "session sync allowance 0-1, validator set of a chain changed by real stake / edit-stake transactions before or after the latest session's "
+                        "first block, node session cache empty), about 9 000 relays per quick run; exploration only, no absence claim. Only single alterations are generated.",
              level_note="Keeper level: HandleRelay is called directly with the context app.NewContext(lastHeight) builds; the RPC layer (JSON decoding, sync-status gate) is "
                         "not exercised. The hosted chain is an in-process HTTP server registered through Keeper.SetHostedBlockchains on the application's own keeper. "
-                        "Stakes are laid out so that session membership is decidable without re-implementing selection."),
-    "C34": c("relays", "TestC34", dict(checks=250, timeout=600), dict(checks=4000, shards=14, timeout=1500),
+                        "Stakes are laid out so that session membership is decidable without re-implementing selection (stakers of a chain at the session's first "
+                        "block == SessionNodeCount, or the servicer not among them); worlds where the servicer joined a chain with SessionNodeCount+1 stakers at the "
+                        "session start are generated but membership is not asserted there. Nodes leave a chain only by edit-stake (begin-unstake waits for the session end)."),
+    "C34": c("relays", "TestC34", dict(checks=350, timeout=600), dict(checks=4000, shards=14, timeout=1500),
              technique="schedule exploration with a harness-owned deterministic scheduler: the build-tag hook pocketTypes.VerifYield parks every goroutine between relay "
                        "validation and proof storage and between reading and writing back the evidence; a rapid-drawn sequence of goroutine ids decides who runs next "
                        "(one goroutine at a time); invariants on the stored evidence are checked at quiescence",
              design_ref="DESIGN.md §7 C34",
-             level_text="Schedules of 2-5 relay goroutines (identical and distinct relays of one session, 0-3 relays already stored, per-node limit 2-4) plus an optional sealing "
-                        "goroutine that does what the claim sender does; 6 schedules per generated world, 1 500 schedules per quick run. Exploration bounded to the "
-                        "two instrumented yield points (plus one harness-level point between the sealer's read and its seal): interleavings inside other "
-                        "functions are not explored; no absence claim.",
+             level_text="Schedules of 2-5 relay goroutines (identical and distinct relays of one session, 0-5 relays already stored, per-node limit 2-6, evidence LRU capacity "
+                        "default / 1 / 2) plus an optional sealing goroutine that does what the claim sender does and an optional goroutine performing 1-3 store events "
+                        "(FlushToDB, evidence-iterator pass, relay of another session of the same node); 6 schedules per generated world, 2 100 schedules per quick run. "
+                        "Exploration bounded to the two instrumented yield points (plus harness-level points between the sealer's read, its state reads and its seal, and "
+                        "between store events): interleavings inside other functions are not explored; no absence claim.",
              level_note="Trusts the scheduler (goroutine identity from runtime.Stack; a goroutine blocked on a lock is recognised from its runtime status) and the hook "
                         "placement. The sealer mimics SendClaimTx (EvidenceIterator read, then Evidence.GenerateMerkleRoot) rather than calling it (it needs a Tendermint client). "
-                        "The property bounds what is stored, not what is served: relays answered after the evidence was sealed are not required to be recorded."),
+                        "The property bounds what is stored, not what is served: relays answered after the evidence was sealed are not required to be recorded. "
+                        "Evidence is observed without going through the store's read path (LRU peek, else database record), so observing does not move it."),
 }
